@@ -13,6 +13,7 @@ broadcast use {ax::axiom_string_eq_spec, ax::axiom_string_obeys_eq, ax::axiom_st
 //@include regions/op_impl.rs
 //@include lemmas/transform.rs
 //@include regions/snapshot_impl.rs
+//@include regions/apply_op.rs
 //@include regions/sync_impl.rs
 //@include lemmas/history.rs
 //@include prelude/tail.rs
